@@ -36,6 +36,9 @@ func runSeqMon(m *lib.Monitor, cfg config, seq []op) []stepObs {
 		before := w.snapshot()
 		out, err, p := w.apply(o)
 		after := w.snapshot()
+		if o.untame() != "" && err == nil && !p {
+			w.untamed = true
+		}
 		evs := w.collectEvents(m, map[string]any{"init": cfg, "ops": seq[:i+1]}, o, before, after, err, &hadActive)
 		obs = append(obs, stepObs{Op: o, Out: out, State: w.stateString(after) + evs, Before: before, After: after, Err: err, Panic: p})
 	}
@@ -85,7 +88,7 @@ func monitorSeq(m *lib.Monitor, cfg config, seq []op, obs []stepObs) {
 		k := o.Kind
 		sk := o.sigKind() // the name in signatures: qualified when the operation's options are outside WOpts.Tame
 		if st.Panic {
-			documented := (k == "create" && o.Mode.ID != "") || (k == "add" && o.Mode.ID == "")
+			documented := o.Mode != nil && ((k == "create" && o.Mode.ID != "") || (k == "add" && o.Mode.ID == ""))
 			if !documented {
 				m.Violate("C19/panic/"+sk, "the operation panicked", input, "a result or an error status", st.Err.Error())
 				return
@@ -166,6 +169,11 @@ func monitorSeq(m *lib.Monitor, cfg config, seq []op, obs []stepObs) {
 		// a failed operation changes nothing
 		if !ok && (strings.Join(modeStrings(st.Before), ";") != strings.Join(modeStrings(st.After), ";") || showMode(st.Before.Active) != showMode(st.After.Active)) {
 			m.Violate("C19/failed-op-changed-state/"+sk, "an operation that returned an error changed the modes or the active mode", input, "state unchanged", st.State)
+		}
+		// after a successful UpdateMode outside WOpts.Tame (reported above when it broke something) the rest of the
+		// sequence is outside the theorems' hypothesis: it feeds the tie (the keyed Lean model follows the code there)
+		if o.untame() != "" && ok {
+			return
 		}
 	}
 }
